@@ -112,6 +112,7 @@ func genShapes(e *emitter, maxP int) {
 
 // ---------- thresholds: all outcome vectors x both thresholds in 0..n+1, shared formatter and sink ids ----------
 func genThresholds(e *emitter, maxN int) {
+	genEqualErrors(e, maxN)
 	for n := 0; n <= maxN; n++ {
 		total := 1
 		for i := 0; i < n; i++ {
@@ -173,6 +174,65 @@ func genThresholds(e *emitter, maxN int) {
 			// one pre-cancelled Send per outcome vector: nothing may be invented, the error wraps the context error
 			h := append(append([]Op{}, hist...), Op{K: "thr", Ety: 1, V: 1})
 			e.run(Case{Gen: "thresholds-precancel", Hist: h, Ety: 1, Beh: beh, Sched: Sched{Pre: true}})
+		}
+	}
+}
+
+// equal error values: several pipelines of ONE Send fail with the identical error value — because they share the failing
+// node (which returns its stored error), or because different nodes return one package-level sentinel — and each failure is
+// still one warning (completes + warnings = pipelines; Warnings is a multiset of error identities).
+// outcome per pipeline: 0 success, 1 fails at the filter SHARED with the other such pipelines (stored error), 2 fails at a
+// node of its own with the sentinel, 3 fails at the shared SINK with the sentinel, 4 fails with an error of its own
+func genEqualErrors(e *emitter, maxN int) {
+	for n := 2; n <= maxN; n++ {
+		total := 1
+		for i := 0; i < n; i++ {
+			total *= 5
+		}
+		for v := 0; v < total; v++ {
+			outs := make([]int, n)
+			x, fails := v, 0
+			for i := range outs {
+				outs[i] = x % 5
+				x /= 5
+				if outs[i] != 0 {
+					fails++
+				}
+			}
+			if fails < 2 {
+				continue
+			}
+			// 70 shared failing filter, 50 formatter, 60 sink that works, 62 sink that fails with the sentinel
+			idType := map[int]int{70: 1, 50: 2, 60: 3, 62: 3}
+			ids := []int{70, 50, 60, 62}
+			var pipes []pdesc
+			for i, o := range outs {
+				own := i + 1
+				idType[own] = 1
+				ids = append(ids, own)
+				switch o {
+				case 1:
+					pipes = append(pipes, pdesc{Pid: i + 1, Ety: 1, IDs: []int{70, 50, 60}})
+				case 3:
+					pipes = append(pipes, pdesc{Pid: i + 1, Ety: 1, IDs: []int{own, 50, 62}})
+				default:
+					pipes = append(pipes, pdesc{Pid: i + 1, Ety: 1, IDs: []int{own, 50, 60}})
+				}
+			}
+			hist, objOf := histFor(idType, ids, pipes)
+			beh := make([][]int, len(ids))
+			beh[objOf[70]-1], beh[objOf[50]-1], beh[objOf[60]-1], beh[objOf[62]-1] = []int{6}, []int{0}, []int{2, 0}, []int{5}
+			ok := 0
+			for i, o := range outs {
+				beh[objOf[i+1]-1] = []int{[]int{0, 0, 5, 0, 3}[o]}
+				if o == 0 {
+					ok++
+				}
+			}
+			for _, th := range [][2]int{{0, 0}, {ok, ok}, {ok + 1, 0}, {n, ok}} {
+				h := append(append([]Op{}, hist...), Op{K: "thr", Ety: 1, V: int64(th[0])}, Op{K: "thrs", Ety: 1, V: int64(th[1])})
+				e.run(Case{Gen: "equal-errors", Hist: h, Ety: 1, Beh: beh})
+			}
 		}
 	}
 }
@@ -279,6 +339,20 @@ func fixedConfigs() []config {
 		beh := [][]int{{1, 0, 1, 2}, {0}, {1}, {2, 3}, {0}}
 		cs = append(cs, config{"c5-shared-filter", hist, beh, nil})
 	}
+	// c6: two pipelines fail at the filter they share (its stored error, one value), the third at its sink with the sentinel
+	{
+		idType := map[int]int{1: 1, 2: 2, 3: 4, 4: 3, 5: 3, 6: 1}
+		hist, _ := histFor(idType, []int{1, 2, 3, 4, 5, 6}, []pdesc{{1, 1, []int{1, 2, 4}}, {2, 1, []int{1, 3, 4}}, {3, 1, []int{6, 2, 5}}})
+		beh := [][]int{{6}, {0}, {0}, {2}, {5}, {0}}
+		cs = append(cs, config{"c6-equal-errors-shared-node", hist, beh, nil})
+	}
+	// c7: different nodes return the same sentinel; the third pipeline completes
+	{
+		idType := map[int]int{1: 1, 2: 2, 4: 3, 6: 1, 7: 1}
+		hist, _ := histFor(idType, []int{1, 2, 4, 6, 7}, []pdesc{{1, 1, []int{1, 2, 4}}, {2, 1, []int{6, 2, 4}}, {3, 1, []int{7, 2, 4}}})
+		beh := [][]int{{5}, {0}, {0}, {5}, {0}}
+		cs = append(cs, config{"c7-equal-errors-sentinel", hist, beh, nil})
+	}
 	return cs
 }
 
@@ -324,7 +398,7 @@ func randomSmallConfig(r *hc.Rand, i int) config {
 	for _, id := range ids {
 		n := 1 + r.Intn(3)
 		for j := 0; j < n; j++ {
-			beh[o[id]-1] = append(beh[o[id]-1], []int{0, 0, 0, 1, 2, 3, 3, 4}[r.Intn(8)])
+			beh[o[id]-1] = append(beh[o[id]-1], []int{0, 0, 0, 1, 2, 3, 3, 4, 5, 6}[r.Intn(10)])
 		}
 		if r.Chance(1, 6) {
 			gate = append(gate, o[id])
@@ -451,14 +525,29 @@ func genRandom(e *emitter, r *hc.Rand, n int) {
 		for o := 0; o < nobj; o++ {
 			l := 1 + r.Intn(3)
 			for j := 0; j < l; j++ {
-				beh[o] = append(beh[o], []int{0, 0, 0, 0, 0, 1, 1, 2, 3, 3, 4}[r.Intn(11)])
+				beh[o] = append(beh[o], []int{0, 0, 0, 0, 0, 1, 1, 2, 3, 3, 4, 5, 6}[r.Intn(13)])
 			}
 			if r.Chance(1, 12) {
 				gate = append(gate, o+1)
 			}
 		}
+		gen := "random"
+		if r.Chance(1, 4) && nobj >= 2 {
+			// equal error values: the shared filters (objects 1 and 2) fail in every pipeline they head, with the node's
+			// stored error or the package-level sentinel, and every other error of the configuration is the sentinel too
+			gen = "random-equal-errors"
+			beh[0] = []int{5 + r.Intn(2)}
+			beh[1] = []int{0, 5}
+			for o := 2; o < nobj; o++ {
+				for j := range beh[o] {
+					if beh[o][j] == 3 {
+						beh[o][j] = 5
+					}
+				}
+			}
+		}
 		et := 1 + r.Intn(3)
-		c := Case{Gen: "random", Hist: hist, Ety: et, Beh: beh, Gate: gate, Sched: Sched{Jitter: r.U64() | 1}}
+		c := Case{Gen: gen, Hist: hist, Ety: et, Beh: beh, Gate: gate, Sched: Sched{Jitter: r.U64() | 1}}
 		ref := e.run(c)
 		// cancelled variants at positions of the reference run
 		if len(ref.Points) == 0 {
